@@ -135,8 +135,13 @@ class XferWorld:
         return cfg
 
     # ---- scheduler
+    mb_rng = None        # set: the order in which the mailbox connections are served is the schedule's choice
+
     def _mailbox_step(self):
-        for conn in self.conns:
+        conns = list(self.conns)
+        if self.mb_rng is not None:
+            self.mb_rng.shuffle(conns)
+        for conn in conns:
             if conn.state != "open":
                 continue
             if conn.c2s:
